@@ -17,7 +17,7 @@ from typing import Dict, List, Optional, Set, Tuple
 
 from ..effects import Effects
 from ..model import AnalysisError, ClassInfo, FunctionInfo, Repo
-from ..pitlib import storage_kinds
+from ..pitlib import nonpersistent_buffers, storage_kinds
 from ..sym import NONE, Term, mentions, show, subterms
 from ..util import (SELF, arg, callee, is_call, method_call, paths, returning, short, where)
 from .c07 import recomputed_before_read
@@ -178,8 +178,11 @@ def r17a(ctx, repo: Repo, classes: List[ClassInfo], label: str = ''):
                         own_attrs.add(e.data[1])
         obs_fns = [f for f in fam if f.name in OBS_METHODS or f.kind == 'getter']
         reads = E.attrs_read(obs_fns)
+        nonpers = nonpersistent_buffers(repo, ci)
         for a in sorted(own_attrs):
             kind = kinds.get(a, 'plain')
+            if kind == 'buffer' and a in nonpers:
+                kind = 'plain'      # registered with persistent=False: not in the state_dict
             if kind in ('param', 'buffer') or a.startswith('__') or a == 'training':
                 continue
             muts = mutators_of(repo, mutable, ci, a)
